@@ -8,14 +8,18 @@
 //
 //	# ...                          -> skip
 //	life udp <id> dom=<n> refresh=<s> slack=<ms> grace=<ms> closeat=<ms> closers=<k> reps=<r>
-//	         sends=<send>!<send>... tail=<count>~<every ms>~<desc>
+//	         [unrefreshable=<tid> early=<ms>] sends=<send>!<send>... tail=<count>~<every ms>~<desc>
+//	         (unrefreshable / early are for the specification only: the harness does what the sends say)
 //	life tcp <id> dom=<n> check=<ms> slack=<ms> grace=<ms> mode=<full|half|idle|cclose> peerat=<ms|->
 //	         closeat=<ms> closers=<k> reps=<r> sends=<send>!... loop=<start>~<every>~<until>~<desc>|- tail=...
 //	    <send> = <at ms>~<desc>     <desc> = <path 0|1|2>~<t|d>~<set id>~<tid@ie=value,...;...>
 //
 //	-> udp sends=<s>,... dgrams=<t>:<hex>,... close=<start>,<done>,<calls>,<returned> bg=<n> panic=<0|1> race=<0|1>
 //	-> tcp sends=<s>,... chunks=<t>:<hex>,... peer=<t|-> readend=<t|-> close=... bg=<n> panic=<0|1> race=<0|1>
-//	   <s> = <e<i>|l|t>:<t call>:<t return>:<ok|err>:<bytes>
+//	   <s> = <e<i>|l|t>:<t call>:<t return>:<ok|err|hung>:<bytes>
+//	         hung = the SendSet call had not returned sendWatchdog (2 s) after it was made: the watchdog records it (with
+//	         the time it gave up as <t return>), the application goroutine is abandoned (it makes no further call) and
+//	         the session goes on to its end - the harness itself never waits for a call of the library without a bound.
 //	-> harness-error <what> | bad-op
 //
 // Scenario times are ms, observed times are MICROSECONDS, both since InitExportingProcess returned. The application is ONE goroutine (scheduled sends,
@@ -44,6 +48,7 @@ import (
 	"net"
 	"os"
 	"path/filepath"
+	"runtime"
 	"runtime/pprof"
 	"strconv"
 	"strings"
@@ -95,7 +100,11 @@ func parseIE(tok string) (*entities.InfoElement, error) {
 }
 
 // value tokens: n<decimal> (bit pattern), t / f, x<hex> (x- empty)
-func mkElem(ie *entities.InfoElement, tok string) (entities.InfoElementWithValue, error) {
+// tmpl: the element goes into a TEMPLATE record. The library has no constructor for dateTimeMicroseconds /
+// dateTimeNanoseconds elements (and DecodeAndCreateInfoElementWithValue refuses them), but a template record asks
+// nothing of an element except IsValueEmpty(): an application describes such a field of the IANA registry with
+// the constructor of the 8-byte carrier and the value 0. Data records with these types stay unsupported.
+func mkElem(ie *entities.InfoElement, tok string, tmpl bool) (entities.InfoElementWithValue, error) {
 	if tok == "" {
 		return nil, fmt.Errorf("empty value")
 	}
@@ -204,12 +213,17 @@ func mkElem(ie *entities.InfoElement, tok string) (entities.InfoElementWithValue
 			return nil, bad
 		}
 		return entities.NewOctetArrayInfoElement(ie, b), nil
+	case entities.DateTimeMicroseconds, entities.DateTimeNanoseconds:
+		if !tmpl || !num || n != 0 {
+			return nil, bad
+		}
+		return entities.NewUnsigned64InfoElement(ie, 0), nil
 	}
 	return nil, fmt.Errorf("unsupported element type")
 }
 
 // elems token: ie=value,ie=value  ("-" = empty)
-func parseElems(tok string) ([]entities.InfoElementWithValue, error) {
+func parseElems(tok string, tmpl bool) ([]entities.InfoElementWithValue, error) {
 	if tok == "-" {
 		return []entities.InfoElementWithValue{}, nil
 	}
@@ -223,7 +237,7 @@ func parseElems(tok string) ([]entities.InfoElementWithValue, error) {
 		if err != nil {
 			return nil, err
 		}
-		e, err := mkElem(ie, kv[1])
+		e, err := mkElem(ie, kv[1], tmpl)
 		if err != nil {
 			return nil, err
 		}
@@ -282,7 +296,7 @@ func (d desc) build() (entities.Set, error) {
 		if err != nil {
 			return nil, err
 		}
-		elems, err := parseElems(p[1])
+		elems, err := parseElems(p[1], d.ty == entities.Template)
 		if err != nil {
 			return nil, err
 		}
@@ -454,6 +468,16 @@ type sendObs struct {
 	tCall, tRet int64
 	ok          bool
 	n           int
+	hung        bool
+}
+
+// sendWatchdog: a SendSet call that has not returned after this long is recorded as hung
+const sendWatchdog = 2 * time.Second
+
+// callInfo: the SendSet call the application goroutine is in
+type callInfo struct {
+	kind string
+	t    int64
 }
 
 type timed struct {
@@ -469,7 +493,15 @@ type run struct {
 	recv      []timed
 	panicked  atomic.Bool
 	panicText atomic.Value
+	// per-call watchdog: the application goroutine publishes the call it is in (atomically: the only
+	// happens-before edge this adds goes from the application goroutine to the watchdog, which never touches
+	// the exporter); `abandoned` (under mu) is set by the watchdog together with the hung record
+	call      atomic.Pointer[callInfo]
+	abandoned bool
+	hungCh    chan struct{}
 }
+
+func newRun(sc *scenario) *run { return &run{sc: sc, hungCh: make(chan struct{})} }
 
 func (r *run) us() int64 { return time.Since(r.t0).Microseconds() }
 
@@ -491,16 +523,65 @@ func (r *run) send(ep *exporter.ExportingProcess, kind string, d desc) {
 	if err != nil {
 		t := r.us()
 		r.mu.Lock()
-		r.sends = append(r.sends, sendObs{kind, t, t, false, 0})
+		r.sends = append(r.sends, sendObs{kind, t, t, false, 0, false})
 		r.mu.Unlock()
 		return
 	}
 	tc := r.us()
+	r.call.Store(&callInfo{kind, tc})
 	n, err := ep.SendSet(set)
 	tr := r.us()
 	r.mu.Lock()
-	r.sends = append(r.sends, sendObs{kind, tc, tr, err == nil, n})
+	r.call.Store(nil)
+	gone := r.abandoned
+	if !gone {
+		r.sends = append(r.sends, sendObs{kind, tc, tr, err == nil, n, false})
+	}
 	r.mu.Unlock()
+	if gone { // the watchdog gave this call up (and said so in the observation): the application makes no further call
+		runtime.Goexit()
+	}
+}
+
+// watchdog: until the application goroutine is done, look every 20 ms whether it has been inside one SendSet call
+// for sendWatchdog; if so record that call as hung, abandon the application goroutine and tell the session
+func (r *run) watchdog(appDone <-chan struct{}) {
+	tk := time.NewTicker(20 * time.Millisecond)
+	defer tk.Stop()
+	for {
+		select {
+		case <-appDone:
+			return
+		case <-tk.C:
+		}
+		ci := r.call.Load()
+		if ci == nil || r.us()-ci.t < sendWatchdog.Microseconds() {
+			continue
+		}
+		r.mu.Lock()
+		still := r.call.Load() == ci // the same call, not yet returned
+		if still {
+			r.abandoned = true
+			r.sends = append(r.sends, sendObs{ci.kind, ci.t, r.us(), false, 0, true})
+		}
+		r.mu.Unlock()
+		if still {
+			close(r.hungCh)
+			return
+		}
+	}
+}
+
+// waitApp: the application goroutine has finished, or one of its SendSet calls hangs (recorded); false = neither
+// within 15 s (the goroutine is stuck outside SendSet)
+func (r *run) waitApp(appDone <-chan struct{}) bool {
+	select {
+	case <-appDone:
+	case <-r.hungCh:
+	case <-time.After(15 * time.Second):
+		return false
+	}
+	return true
 }
 
 // app is the application goroutine: scheduled sends, the loop, and - after every Close has returned - the tail
@@ -624,6 +705,8 @@ func (r *run) sendsToken() string {
 		res := "err"
 		if s.ok {
 			res = "ok"
+		} else if s.hung {
+			res = "hung"
 		}
 		p = append(p, fmt.Sprintf("%s:%d:%d:%s:%d", s.kind, s.tCall, s.tRet, res, s.n))
 	}
@@ -663,7 +746,7 @@ func runUDP(sc *scenario) string {
 	}
 	defer pc.Close()
 	_ = pc.SetReadBuffer(4 << 20)
-	r := &run{sc: sc}
+	r := newRun(sc)
 	stop := make(chan struct{})
 	readerDone := make(chan struct{})
 	go func() {
@@ -701,12 +784,11 @@ func runUDP(sc *scenario) string {
 	closed := make(chan struct{})
 	appDone := make(chan struct{})
 	go r.app(ep, closed, appDone)
+	go r.watchdog(appDone)
 	co := r.closeAll(ep)
 	close(closed)
 	left := bgLeft(sc.id)
-	select {
-	case <-appDone:
-	case <-time.After(10 * time.Second):
+	if !r.waitApp(appDone) {
 		return "harness-error application-goroutine-stuck"
 	}
 	// no byte may be written after Close returned: keep listening
@@ -736,7 +818,7 @@ func runTCP(sc *scenario) string {
 		}
 		accepted <- c
 	}()
-	r := &run{sc: sc}
+	r := newRun(sc)
 	ep, err := initExporter(sc.id, exporter.ExporterInput{
 		CollectorAddress:    ln.Addr().String(),
 		CollectorProtocol:   "tcp",
@@ -782,6 +864,7 @@ func runTCP(sc *scenario) string {
 	closed := make(chan struct{})
 	appDone := make(chan struct{})
 	go r.app(ep, closed, appDone)
+	go r.watchdog(appDone)
 	peer := int64(-1)
 	peerDone := make(chan struct{})
 	go func() {
@@ -801,9 +884,7 @@ func runTCP(sc *scenario) string {
 	close(closed)
 	left := bgLeft(sc.id)
 	<-peerDone
-	select {
-	case <-appDone:
-	case <-time.After(10 * time.Second):
+	if !r.waitApp(appDone) {
 		return "harness-error application-goroutine-stuck"
 	}
 	select {
